@@ -106,7 +106,9 @@ def resolve(resources, path, method, prefix=""):
             if m is None:
                 continue
             if method in r.methods or "*" in r.methods:
-                return ("ok", r.ident, {k: unquote_safe(v) for k, v in m.groupdict().items()})
+                # the route registered for this very method, else the catch-all one ("*")
+                which = method if method in r.methods else "*"
+                return ("ok", (r.ident, which), {k: unquote_safe(v) for k, v in m.groupdict().items()})
             for x in r.methods:
                 allowed.add(x)
     if allowed:
